@@ -5,6 +5,7 @@
 package processor
 
 import (
+	"github.com/free5gc/chf/internal/cgf"
 	"sync"
 
 	charging_datatype "github.com/free5gc/chf/ccs_diameter/datatype"
@@ -26,6 +27,7 @@ func verif_preserved[T any](g func(int) bool, e func(int) T) bool { return true 
 func verif_held(mu *sync.Mutex) bool { return true }
 
 var _ = chf_context.GetSelf
+var _ = cgf.SpecReady
 var _ = cdrFile.SpecFileOK
 var _ = factory.ChfConfig
 var _ = charging_datatype.REQ_SUBTYPE_DEBIT
@@ -142,6 +144,7 @@ func specSameQuota(ue *chf_context.ChfUe, old map[int32]int64) bool {
 // partial record that continues it, which then is what the reference designates).
 //@ func (*Processor).ChargingDataUpdate [C09 C10 C11 C12]
 //@   entry
+//@   requires cgf.SpecReady()
 //@   requires [C20] factory.SpecValidated(factory.ChfConfig)
 //@   requires [C20] chf_context.GetSelf().AbmfCfg != nil && chf_context.GetSelf().RatingCfg != nil
 //@   ensures (result0 != nil) == (result1 == nil)
@@ -161,6 +164,7 @@ func specSameQuota(ue *chf_context.ChfUe, old map[int32]int64) bool {
 // is held; the new record is what the reference designates; other sessions keep their records.
 //@ func (*Processor).ChargingDataCreate [C09 C10 C11 C12]
 //@   entry
+//@   requires cgf.SpecReady()
 //@   ensures (result0 != nil) == (result2 == nil)
 //@   ensures result2 != nil ==> result2.Status >= 400 && result2.Status < 500 && result1 == ""
 //@   ensures [C12] result0 != nil ==> result0.InvocationSequenceNumber == chargingData.InvocationSequenceNumber && result0.InvocationTimeStamp != nil
@@ -319,6 +323,7 @@ var ghostHttpWrites int
 // Exactly one response per request; 201 / 200 with a body, 204 without, otherwise a 4xx problem body.
 //@ func (*Processor).HandleChargingdataInitial [C11 C12]
 //@   entry
+//@   requires cgf.SpecReady()
 //@   inline-calls (*Processor).ChargingDataCreate
 //@   modifies-anything
 //@   requires c != nil && ghostHttpWrites >= 0 && ghostHttpWrites < 1<<40
@@ -328,6 +333,7 @@ var ghostHttpWrites int
 
 //@ func (*Processor).HandleChargingdataUpdate [C11 C12]
 //@   entry
+//@   requires cgf.SpecReady()
 //@   inline-calls (*Processor).ChargingDataUpdate
 //@   modifies-anything
 //@   requires c != nil && ghostHttpWrites >= 0 && ghostHttpWrites < 1<<40
